@@ -9,11 +9,14 @@ import (
 )
 
 type lockState struct {
-	w     bool
-	r     int
-	other bool // held by a party outside the executing thread(s) (harness: vHoldLock)
-	owner int  // thread id of the writer (threaded mode)
-	label string
+	w      bool
+	r      int
+	other  bool        // held by a party outside the executing thread(s) (harness: vHoldLock)
+	owner  int         // thread id of the writer
+	rd     map[int]int // read holds per thread id
+	parked bool        // a holder is a goroutine that is parked right now
+	dead   bool        // a holder is a goroutine that ended without releasing it
+	label  string
 }
 
 type lockEvent struct {
@@ -164,8 +167,8 @@ func (vm *VM) lockWrite(p PtrV, try bool) bool {
 		return false
 	}
 	vm.lockEventLog("lock", ls, false)
-	vm.blockedOnLock(ls, "Lock")
-	return false
+	vm.blockedOnLock(ls, "Lock", func() bool { return !ls.w && ls.r == 0 })
+	return vm.lockWrite(p, try)
 }
 
 // onLockAcquired runs the harness hook registered with vOnLockAcquired (thread 1, blocking
@@ -182,24 +185,29 @@ func (vm *VM) onLockAcquired(try bool) {
 	vm.P.inHook = false
 }
 
-// blockedOnLock: a blocking acquire found the lock taken.
-func (vm *VM) blockedOnLock(ls *lockState, op string) {
+// blockedOnLock: a blocking acquire found the lock taken.  It returns when the lock may be
+// tried again (the caller loops); otherwise the path ends.
+func (vm *VM) blockedOnLock(ls *lockState, op string, free func() bool) {
+	cur := vm.P.curThread
+	mine := (ls.w && ls.owner == cur && !ls.other) || ls.rd[cur] > 0
 	switch {
-	case ls.other:
-		vm.block(op + " on " + ls.label + " held by another party")
-	case ls.w && ls.owner != vm.P.curThread && vm.P.curThread == 2:
-		vm.block(op + " on " + ls.label + " held by the main thread")
-	case ls.w && ls.owner != vm.P.curThread:
-		// the second thread's operation has completed, so nobody will ever release this lock
-		vm.P.Oblig++
-		vm.recordViolation("deadlock.lock-never-released", op+" on "+ls.label+" which an operation that already returned still holds", tTrue)
-		panic(&pathEnd{"deadlock"})
-	case !ls.w && ls.r > 0 && vm.P.curThread == 2:
-		vm.block(op + " on " + ls.label + " read-held by the main thread")
-	default:
+	case mine:
 		vm.P.Oblig++
 		vm.recordViolation("deadlock.self-lock", "blocking "+op+" on "+ls.label+" which the same thread already holds", tTrue)
 		panic(&pathEnd{"self-deadlock"})
+	case ls.other:
+		// held by the harness on behalf of somebody else: released only if the harness does
+		vm.block(op+" on "+ls.label+" held by another party", free)
+	case cur == 2:
+		vm.block(op+" on "+ls.label+" held by the main thread", nil)
+	case ls.dead || (ls.w && ls.owner == 2):
+		// that operation / goroutine is over, so nobody will ever release this lock
+		vm.P.Oblig++
+		vm.recordViolation("deadlock.lock-never-released", op+" on "+ls.label+" which an operation that already returned still holds", tTrue)
+		panic(&pathEnd{"deadlock"})
+	default:
+		// held by a goroutine (parked or not yet scheduled again) or, for a goroutine, by the main thread
+		vm.block(op+" on "+ls.label+" held by another goroutine", free)
 	}
 }
 
@@ -214,6 +222,10 @@ func (vm *VM) lockRead(p PtrV, try bool) bool {
 		}
 		vm.lockEventLog(kind, ls, true)
 		ls.r++
+		if ls.rd == nil {
+			ls.rd = map[int]int{}
+		}
+		ls.rd[vm.P.curThread]++
 		vm.addHeld(k)
 		vm.raceAcquire(k, false)
 		return true
@@ -223,8 +235,8 @@ func (vm *VM) lockRead(p PtrV, try bool) bool {
 		return false
 	}
 	vm.lockEventLog("rlock", ls, false)
-	vm.blockedOnLock(ls, "RLock")
-	return false
+	vm.blockedOnLock(ls, "RLock", func() bool { return !ls.w })
+	return vm.lockRead(p, try)
 }
 
 func (vm *VM) unlockWrite(p PtrV) {
@@ -250,6 +262,9 @@ func (vm *VM) unlockRead(p PtrV) {
 	}
 	vm.lockEventLog("runlock", ls, true)
 	ls.r--
+	if ls.rd[vm.P.curThread] > 0 {
+		ls.rd[vm.P.curThread]--
+	}
 	vm.raceRelease(vm.lockKey(p), false)
 	vm.delHeld(vm.lockKey(p))
 	vm.schedPoint("runlock")
@@ -304,6 +319,7 @@ func addSync(m map[string]Intrinsic) {
 		ls := vm.getLock(args[0].(PtrV))
 		ls.w = false
 		ls.r = 0
+		ls.rd = nil
 		ls.other = false
 		return nil
 	}
